@@ -24,7 +24,7 @@ TRUSTED = [
 ASSUMPTIONS = ["user-registered classes are themselves deterministic functions of their prng"]
 
 ENVS = [("plain", "0"), ("plain", "1"), ("plain", "4242"), ("perturb:7", "0"), ("perturb:99", "random"), ("prior", "3"),
-        ("sibling", "0"), ("same", "5")]
+        ("sibling", "0"), ("same", "5"), ("reuse", "2")]
 
 
 def sibling_config(cfg, rng):
@@ -87,6 +87,13 @@ def gen_case(rng, i):
     cfg["PLR"] = {"class": "PriceLimitRule", "targetMarkets": [mk[0]], "triggerChangeRate": 0.05}
     cfg["THR"] = {"class": "TradingHaltRule", "targetMarkets": [mk[1]], "triggerChangeRate": 0.02, "haltingTimeLength": 2}
     ses[-1]["events"] = ["FPS", "OMS", "PLR", "THR"]
+    if i % 2 == 1:
+        # deprecated spellings of the session keys (valid, they only warn): the caller's settings
+        # object must come back untouched, and a second run of the same object must reproduce the first
+        for s in ses[: rng.randint(1, len(ses))]:
+            for new_key, old_key in (("maxHighFrequencyOrders", "maxHifreqOrders"), ("highFrequencySubmitRate", "hifreqSubmitRate")):
+                if new_key in s and rng.random() < 0.8:
+                    s[old_key] = s.pop(new_key)
     return cfg
 
 
